@@ -361,9 +361,18 @@ func (m *MonC05) AfterTx(o *TxOutcome) {
 	// 18-digit noise: the module clears the validator's shares when its remaining token value evaluates to 0
 	// with 18 digits (remaining fraction of the asset < 5e-19, or value < 5e-19); three orders of margin
 	noise := new(big.Rat).SetFrac(big.NewInt(1), new(big.Int).Exp(big.NewInt(10), big.NewInt(15), nil))
+	// relative to the scale the 18-digit arithmetic of this exit worked at: the staked total before and after
+	// and the amount moved (at 1e22+ base units a remainder of a fraction of a unit is below its resolution:
+	// recorded family precision-18dec / dust against a huge total)
+	scale := new(big.Rat)
+	for _, x := range []*big.Rat{ratInt(a1.TotalTokens), ratInt(o.Pre.Assets[den].TotalTokens), ratInt(o.Amount)} {
+		if x.Cmp(scale) > 0 {
+			scale = x
+		}
+	}
 	rel := new(big.Rat).Set(noise)
-	if a1.TotalTokens.IsPositive() {
-		rel.Mul(rel, ratInt(a1.TotalTokens))
+	if scale.Sign() > 0 {
+		rel.Mul(rel, scale)
 	}
 	if rest.Cmp(noise) > 0 && rest.Cmp(rel) > 0 {
 		m.wiped[[2]string{o.Val, den}] = fmt.Sprintf("the %s of %s%s by %s at step %d removed every validator share of (%s,%s) although the positions staying there were worth %s and hold %s delegator shares", o.Step.K, o.Amount, den, m.R.W.Name(o.Actor), o.Idx, m.R.W.Name(o.Val), den, ratStr(rest), S1)
